@@ -4,6 +4,7 @@ from __future__ import annotations
 
 import argparse
 import importlib
+import importlib.util
 import json
 import os
 import sys
@@ -17,6 +18,22 @@ def replay(path, quiet=False):
     from symx import core
     with open(path) as f:
         rp = json.load(f)
+    if rp.get("cls") == "crosshair":
+        # CrossHair counterexample: call the contract function on the reported arguments
+        spec = importlib.util.spec_from_file_location("ch_contracts", os.path.join(VERIF, rp["params"]["file"]))
+        m = importlib.util.module_from_spec(spec)
+        spec.loader.exec_module(m)
+        try:
+            ok = eval(f"f({rp['model']['call']})", {"f": getattr(m, rp["params"]["func"])})
+        except Exception as exc:
+            print(f"replay crashed: {type(exc).__name__}: {exc}")
+            return 0
+        if ok is not True:
+            print(f"VIOLATION property={rp['property']} replay={path}")
+            print(f"  contract {rp['params']['func']}({rp['model']['call']}) is false on the real code")
+            return 1
+        print("not reproduced")
+        return 0
     mod = importlib.import_module(rp["module"])
     fn = getattr(mod, rp["fn"])
     try:
